@@ -124,6 +124,19 @@ def _messages(res, rng, tier, widen, payloads):
         for _ in range(rng.choice([0, 1, 1, 2, 3])):
             ro[rng.randrange(len(ro))] = rng.randrange(128, 256) if rng.random() < 0.5 else rng.randrange(128)
         msgs.append(("P", bytes(ro)))
+        # readout objects the reader never builds but a caller can: no LF at all (bare CR line ends, or everything on one
+        # line), only the first LF missing, nothing between the identification and '!', '!' before the first line end
+        k = rng.randrange(12)
+        if k == 0:
+            msgs.append(("P", bytes(ro).replace(b"\n", b"")))
+        elif k == 1:
+            msgs.append(("P", bytes(ro).replace(b"\r\n", b"")))
+        elif k == 2:
+            msgs.append(("P", bytes(ro).replace(b"\n", b"", 1)))
+        elif k == 3:
+            msgs.append(("P", bytes(ro[: max(ro.find(b"\r"), 1)]) + rng.choice([b"!", b"!\r", b"!ABCD", b"!\r\n", b"\r!\r"])))
+        elif k == 4:
+            msgs.append(("P", bytes(ro).replace(b"\r", b"")))
     for p in payloads[: (150 if tier == "quick" else 3000) * widen]:
         if p:
             msgs.append(("D", p))
